@@ -404,7 +404,7 @@ def validEval (line : String) : Option String := do
   let kv := kvs line
   match fields line with
   | "dur" :: _ => do
-    pure (if validateDurations false (← durs? (← look kv "d")) then "ok" else "bad")
+    pure (if validateDurations durCmpFixed (← durs? (← look kv "d")) then "ok" else "bad")
   | "init" :: _ => do
     pure (if claimerValidate globalClaims (← durs? (← look kv "d")) then "ok" else "bad")
   | "body" :: _ => do
@@ -418,7 +418,7 @@ def validEval (line : String) : Option String := do
     let sh ← blk "sh"
     let b : ProvBody := { parses := (← bool? (← look kv "p")), claims := [x, su, sh].filterMap id,
                           templatesOK := (← bool? (← look kv "t")) }
-    pure (match provBodyCheck false b with
+    pure (match provBodyCheck durCmpFixed b with
       | some o => authOutS o
       | none => if claimerValidate globalClaims (x.getD {}) then "pass" else "bad")
   | "det" :: _ => do
